@@ -308,15 +308,27 @@ def gen_gp_twin(rng, nearly_exhausted=False):
         return dict(kind="gp_twin", sched="fifo-bayesopt", spec=spec, pts=[], seed=rng.randrange(10 ** 6),
                     num_init_random=10 ** 6, ops=["suggest", "complete"] * (k + 6), cut=2 * k, max_suggest=k + 6,
                     metrics=[0.5], pickle_state=False, directed="nearly_exhausted_finite_space", order="sequential")
-    kind = rng.choice(["fifo-bayesopt", "hb-stopping-bayesopt", "hb-promotion-bayesopt"])
-    spec = h.gen_space_spec(rng, finite_only=False, nmax=3)
+    kind = rng.choice(["fifo-bayesopt", "fifo-bayesopt", "hb-stopping-bayesopt", "hb-promotion-bayesopt"])
+    spec = h.gen_space_spec(rng, finite_only=rng.random() < 0.25, nmax=2, consts=rng.random() < 0.3)
     space = h.build_space(spec)
-    n = rng.randint(5, 8)
-    ops = [rng.choice(["suggest", "suggest", "report", "report", "complete", "error"]) for _ in range(2 * n)]
+    n = rng.randint(7, 11)
+    # mostly suggest / complete, so that observations arrive and model-based steps happen before AND after the snapshot
+    ops = [rng.choice(["suggest", "suggest", "complete", "complete", "report", "error"]) for _ in range(2 * n)]
+    so = dict(opt_skip_period=rng.choice([1, 2, 3]), opt_skip_init_length=rng.choice([1, 2, 3]),
+              num_init_candidates=rng.choice([5, 8, 15]), initial_scoring=rng.choice(["thompson_indep", "acq_func"]))
+    if kind.startswith("hb-") and rng.random() < 0.4:
+        so["opt_skip_num_max_resource"] = True
+    cuts = sorted(set([rng.randint(0, len(ops)) for _ in range(2)] + [rng.randint(len(ops) // 3, len(ops) - 2)]))
     return dict(kind="gp_twin", sched=kind, spec=spec, pts=h.gen_points(rng, spec, space), seed=rng.randrange(10 ** 6),
-                num_init_random=rng.choice([1, 2, 3, 50]), ops=ops, cut=rng.randint(0, len(ops)), max_suggest=n,
+                num_init_random=rng.choice([1, 2, 3]), search_options=so, ops=ops, cuts=cuts, max_suggest=n,
                 metrics=[round(rng.uniform(0, 1), 3) for _ in range(4 * n)], pickle_state=rng.random() < 0.4,
                 order=rng.choice(["sequential", "interleaved"]))
+
+
+def rng_state_equal(a, b):
+    """all five entries of RandomState.get_state(): name, key array, pos, has_gauss, cached_gaussian"""
+    return (len(a) == len(b) == 5 and a[0] == b[0] and np.array_equal(np.asarray(a[1]), np.asarray(b[1]))
+            and int(a[2]) == int(b[2]) and int(a[3]) == int(b[3]) and float(a[4]) == float(b[4]))
 
 
 class Player:
@@ -327,6 +339,7 @@ class Player:
         self.running, self.paused, self.epoch = {}, {}, {}
         self.next_id = self.mi = self.n_sug = 0
         self.trace = []
+        self.probe = None      # optional: extra public observation recorded after every suggest
 
     def step(self, op):
         from syne_tune.backend.trial_status import Trial
@@ -349,6 +362,8 @@ class Player:
                     self.trace.append(("suggest", None))
                     return
                 self.trace.append(("suggest", sg.spawn_new_trial_id, sg.checkpoint_trial_id, canon(sg.config)))
+                if self.probe is not None:
+                    self.trace.append(("probe", self.probe(sch)))
                 if sg.spawn_new_trial_id:
                     tr = Trial(trial_id=self.next_id, config=sg.config, creation_time=h.T0)
                     sch.on_trial_add(tr)
@@ -394,6 +409,24 @@ def make_gp_scheduler(case, space):
 
 
 def run_gp_twin(ctx, case):
+    """all snapshot positions of the case"""
+    viols, n_after = [], 0
+    for cut in case.get("cuts", [case.get("cut", 0)]):
+        v, n = run_gp_twin_at(ctx, dict(case, cut=cut))
+        viols += v
+        n_after += n
+    return viols, n_after
+
+
+def params_probe(sch):
+    """surrogate model parameters (public searcher.model_parameters()): frozen / refitted alike in original and clone"""
+    try:
+        return repr(sorted((k, float(v)) for k, v in sch.searcher.model_parameters().items()))
+    except Exception as e:  # noqa
+        return "raised " + type(e).__name__
+
+
+def run_gp_twin_at(ctx, case):
     """returns (list of (signature, text), number of continuation steps). pa = never interrupted; the searcher of
     pb is replaced by a clone, the searcher of pc by a SECOND clone restored from the same snapshot dict
     (clone_from_state invalidates the searcher it is called on, so the original cannot continue)"""
@@ -401,6 +434,8 @@ def run_gp_twin(ctx, case):
     space = h.build_space(case["spec"])
     with contextlib.redirect_stdout(io.StringIO()):
         pa, pb, pc = (Player(make_gp_scheduler(case, space), case) for _ in range(3))
+    for p in (pa, pb, pc):
+        p.probe = params_probe
     cut = case["cut"]
     for op in case["ops"][:cut]:
         for p in (pa, pb, pc):
@@ -421,6 +456,14 @@ def run_gp_twin(ctx, case):
             p.sch._searcher = clone           # the only way to hand the clone to the scheduler (no public setter)
             clone.configure_scheduler(p.sch)  # 'has to be called before the searcher can be used'
     install(pb, roundtrip(state, case["pickle_state"]))
+    viols = []
+    # direct check: the generator state the clone continues from is the one get_state() returned
+    restored = pb.sch.searcher.get_state()["random_state"]
+    if not rng_state_equal(state["random_state"], restored):
+        viols.append((dict(searcher=name, facility="clone_from_state", event="random_state_not_fully_restored",
+                           consumer="clone", has_gauss_at_snapshot=int(state["random_state"][3])),
+                      "after snapshot at op %d: RandomState of the snapshot (pos %s, has_gauss %s, cached %r) vs clone "
+                      "(pos %s, has_gauss %s, cached %r)" % ((cut,) + tuple(state["random_state"][2:5]) + tuple(restored[2:5]))))
     n0 = len(pa.trace)
     rest = case["ops"][cut:]
     for op in rest:
@@ -436,12 +479,16 @@ def run_gp_twin(ctx, case):
         install(pc, state)                    # second restore from the SAME dict after the first clone ran
         for op in rest:
             pc.step(op)
-    viols = []
     for who, p in (("clone", pb), ("second_clone", pc)):
         if p.trace != pa.trace:
             k, x, y = first_diff(pa.trace, p.trace)
             ev = "clone_answers_none_or_other_config_in_random_phase" if case.get("directed") else "continuation_diverged"
+            so = case.get("search_options") or {}
+            stateful = bool(so.get("opt_skip_period", 1) > 1 or so.get("opt_skip_num_max_resource"))
+            # the consumer got the very predicate object of the snapshot and another running object has it too
+            shared_live = (not case["pickle_state"]) and (who == "second_clone" or interleaved)
             viols.append((dict(searcher=name, facility="clone_from_state", event=ev, consumer=who,
+                               predicate_shared_with_live_object=bool(stateful and shared_live),
                                order="interleaved" if interleaved else "sequential",
                                shares="encoded_tuning_job_state" if who == "second_clone" else "nothing",
                                state_pickled=bool(case["pickle_state"] and who == "clone"),
@@ -587,8 +634,12 @@ def run(ctx, replay=None):
                 ctx.h("gs_twin_kind", "seeded=%s shuffle=%s dup=%s" % (case["seeded"], case["shuffle"], case["allow_dup"]))
         elif k == "gp_twin":
             viols, n_after = run_gp_twin(ctx, case)
-            ctx.count(case, nontrivial=n_after > 0)
+            ctx.count(case, nontrivial=n_after > 0, n=len(case.get("cuts", [0])))
             ctx.h("gp_twin", case["sched"] + ("/" + case["directed"] if case.get("directed") else ""))
+            so = case.get("search_options") or {}
+            ctx.h("gp_twin_options", "skip_period=%s scoring=%s cands=%s maxres=%s" % (
+                so.get("opt_skip_period"), so.get("initial_scoring"), so.get("num_init_candidates"),
+                so.get("opt_skip_num_max_resource", False)))
             for sig, text in viols:
                 ctx.violation("property", "%s clone_from_state: %s" % (sig["searcher"], text), case=case, signature=sig)
         elif k == "dill":
